@@ -58,8 +58,8 @@ ALL_FILEVARS = ["file_identical", "file_reordered", "file_nullability", "file_ty
                 "file_missing_column", "file_absent", "file_garbage"]
 # reduced alphabet for the length-3 runs of the quick tier / the length-3 export of the thorough tier
 RED_RICH = ["omitted", "reordered", "renumbered"]
-RED_PLAIN = ["identical", "nullability_relaxed", "extra_field", "other_sid_same", "other_sid_reordered"]
-RED_VCLASSES = ["ok", "unconvertible", "truncating", "empty"]
+RED_PLAIN = ["identical", "nullability_relaxed", "other_sid_same", "other_sid_reordered"]
+RED_VCLASSES = ["ok", "unconvertible", "truncating"]
 RED_FILEVARS = ["file_identical", "file_reordered", "file_nullability"]
 # even smaller alphabet for the exported length-3 histories (thorough)
 X3_RICH = ["omitted", "reordered", "renumbered"]
@@ -394,12 +394,12 @@ class Concretiser:
                 out.append((col, v))
         return out
 
-    def batch(self, vclass: str, k: int, special: Optional[Tuple[str, Any]]) -> List[Dict[str, Any]]:
+    def batch(self, vclass: str, k: int, special: Optional[Tuple[str, Any]], special_row: int = 0) -> List[Dict[str, Any]]:
         b = self.h["batches"][vclass]
         rows: List[Dict[str, Any]] = []
         for r in range(b["n"]):
             row = {c: _ok_value(self.coltype[c], c, k, r) for c in ("a", "b", "c")}
-            if r == 0:
+            if r == special_row:
                 for c in list(row):
                     if c not in b["present"]:
                         del row[c]
@@ -588,7 +588,7 @@ def replay_history(header: Dict[str, Any], hist: Dict[str, Any], t1: str, t2: st
                         special = cands[r.randrange(len(cands))]
                 elif specials and k in specials:
                     special = specials[k]
-                supplied_rows = conc.batch(vclass, k, special)
+                supplied_rows = conc.batch(vclass, k, special, r.randrange(2))
                 schema = conc.supplied(variant)
                 call = lambda: tbl.append_records([dict(x) for x in supplied_rows], schema=schema)  # noqa: E731
             else:
@@ -655,11 +655,16 @@ def replay_history(header: Dict[str, Any], hist: Dict[str, Any], t1: str, t2: st
                         f"{desc}: files lost {lost}, problems {after['problems']}, broken {after['broken']}", {"step": k})
             stored: List[Dict[str, Any]] = []
             for f in new_files:
-                stored.extend(_file_rows(after["reader"], f))
+                try:
+                    stored.extend(_file_rows(after["reader"], f))
+                except Exception as e:  # noqa: BLE001 - an accepted file nobody can read
+                    violate(f"accepted-unreadable-file:{kind}:{variant}",
+                            f"{desc} was accepted but the data file it added ({f}) cannot be read: {e!r}", {"step": k})
             # ---- AcceptedExact: the new file's rows are the supplied rows in the declared representation
             cols = ["a", "b", "c"]
             expected_rows = []
             unrep: List[Tuple[str, Any]] = []
+            unknown_cols: List[str] = []
             for row in supplied_rows:
                 e = {}
                 for c in cols:
@@ -668,15 +673,17 @@ def replay_history(header: Dict[str, Any], hist: Dict[str, Any], t1: str, t2: st
                         unrep.append((c, row.get(c)))
                         val = "<unrepresentable>"
                     e[c] = val
-                extra = [x for x in row if x not in cols]
-                if extra:
-                    unrep.append((extra[0], row[extra[0]]))
+                unknown_cols += [x for x in row if x not in cols]
                 expected_rows.append(e)
             if len(new_files) != 1:
                 if not (len(new_files) == 0 and not supplied_rows):
                     violate(f"accepted-append-file-count:{kind}:{variant}:{vclass}",
                             f"{desc} returned normally but {len(new_files)} new data files are referenced", {"step": k})
-            if unrep:
+            if unknown_cols:
+                violate(f"accepted-unknown-column:{kind}:{variant}:{vclass}",
+                        f"{desc}: the supplied rows carry column(s) {sorted(set(unknown_cols))} that the table does not have, yet the append was accepted; "
+                        f"stored rows: {stored[:2]!r}", {"step": k})
+            elif unrep:
                 c, v = unrep[0]
                 got = [s.get(c) for s in stored][:1]
                 violate(f"altered:{_alter_kind(conc.coltype.get(c, 'unknown-column'), v)}",
@@ -693,7 +700,10 @@ def replay_history(header: Dict[str, Any], hist: Dict[str, Any], t1: str, t2: st
             post_scan = _scan_outcome(path)
             if post_scan[0] == "raise":
                 if scan_was_ok:
-                    physes = [_file_phys(path, f) for f in after["cur_files"]]
+                    try:
+                        physes = [_file_phys(path, f) for f in after["cur_files"]]
+                    except Exception:  # noqa: BLE001 - unreadable footer: diagnosed as "no schema difference"
+                        physes = []
                     dk = _diff_kind(physes) if physes else "none"
                     if dk == "column-order":
                         root = "reordered-schema-arg" if "reordered" in seen_variants else "unexplained"
@@ -720,8 +730,11 @@ def replay_history(header: Dict[str, Any], hist: Dict[str, Any], t1: str, t2: st
                         if v is not None and v == v and not any(same(v, x) for x in vals):
                             vals.append(v)
                     probes: List[Tuple[str, Any]] = [("is_null", True)]
-                    if vals:
+                    try:
                         svals = sorted(vals)
+                    except TypeError:       # mixed kinds in one column: already reported as a content mismatch
+                        svals = []
+                    if svals:
                         probes += [("==", svals[0]), ("==", svals[-1]), ("<", svals[-1]), (">", svals[0])]
                         if len(svals) > 2:
                             probes.append(("==", svals[len(svals) // 2]))
@@ -817,6 +830,7 @@ def run(ctx: Ctx) -> None:
     out2 = os.path.join(outdir, "hist2.ndjson")
     out3 = None if quick else os.path.join(outdir, "hist3.ndjson")
     _tlc_phase(ctx, quick, out2, out3)
+    ctx.cov["tlc_phase_wall_s"] = round(_time.time() - t_start, 1)
     header, cases = _load(out2)
     n_in = _n_inputs(RICH, [v for v in ALL_VARIANTS if v not in RICH], ALL_VCLASSES, ALL_FILEVARS)
     if header["ninputs"] != n_in or len(cases) != n_in ** 2:
@@ -868,7 +882,7 @@ def run(ctx: Ctx) -> None:
     chosen_set = set(chosen)
     extras = [i for i in order if i not in chosen_set]
 
-    budget_s = 62 if quick else 600
+    budget_s = 55 if quick else 600
     procs = 4 if quick else 12
     import multiprocessing as mp
 
@@ -878,12 +892,14 @@ def run(ctx: Ctx) -> None:
             _merge(ctx, res, agg)
             executed += 1
         ctx.cov["value_sweep_histories"] = executed
+        ctx.cov["value_sweep_done_at_s"] = round(_time.time() - t_start, 1)
         for job, res in zip(hist_jobs, pool.imap(_work, hist_jobs, chunksize=4)):
             _merge(ctx, res, agg)
             executed += 1
             hist = job[1]
             ctx.count_case(("hist", hist["steps"], job[2], job[3]),
                            nontrivial=any(s["variant"] != "omitted" or s["vclass"] != "ok" or s["fresh"] for s in hist["steps"]))
+        ctx.cov["cover_done_at_s"] = round(_time.time() - t_start, 1)
         # seeded extras in chunks until the time budget is used (thorough: every exported history)
         pos = 0
         n_extra = 0
